@@ -634,7 +634,9 @@ Value Search::search(Position& position, Depth depth, Value alpha, Value beta,
 
                     tt::TTEntry entry(result, depth, tt::Flag::kLOWER_BOUND,
                                       move);
-                    if (storeEntry) _ttable.insert(position.hash(), entry);
+                    // results obtained after the stop flag was set are meaningless
+                    if (storeEntry && !stop_search)
+                        _ttable.insert(position.hash(), entry);
 
 #if LOG_LEVEL > 1
                     {
@@ -668,7 +670,9 @@ Value Search::search(Position& position, Depth depth, Value alpha, Value beta,
     {
         tt::Flag flag = PV_NODE ? tt::Flag::kEXACT : tt::Flag::kUPPER_BOUND;
         tt::TTEntry entry(bestValue, depth, flag, best_move);
-        if (storeEntry) _ttable.insert(position.hash(), entry);
+        // an interrupted node has not seen all of its moves: its value must not be
+        // kept for later searches
+        if (storeEntry && !stop_search) _ttable.insert(position.hash(), entry);
 
         LOG_DEBUG("[%d] BEST MOVE %s", info->_ply,
                   position.uci(best_move).c_str());
